@@ -70,7 +70,7 @@ def step (s : Sess) (c : Cmd) : Sess × String × String :=
     -- a request above 2^40 bytes is refused by the harness allocator (counted as `absurd=`): 3rd call
     let absurd := cap * 8 > 2 ^ 40 ∧ c.sched.isEmpty
     let m := if absurd then { m with sched := [false, false, true] } else m
-    let (st, r, m) := Stack.new cap (growF f) (exGeF f) m
+    let (st, r, m) := Stack.new cap (growF f) (exGeF f) m (if isNew then .conf else .libc)
     let m := if absurd then { m with nrefused := 0 } else m
     let invalid := cap = 0 ∨ exGeF f (Gen.CC_MAX_ELEMENTS / cap) ∨ cap > Gen.CC_MAX_ELEMENTS / 8
     let sst : Stat := if refused then .errAlloc else if invalid then .errInvalidCapacity else .ok
